@@ -104,7 +104,13 @@ class Expander:
             guard = body.arg(0)
         else:
             guard = body
-        conj = guard.children() if z3.is_and(guard) else [guard]
+        conj, todo = [], [guard]
+        while todo:    # nested conjunctions are flattened: And(And(0 <= i, i < n), filter) bounds i as well
+            g = todo.pop()
+            if z3.is_and(g):
+                todo.extend(g.children())
+            else:
+                conj.append(g)
         ids = {c.get_id(): k for k, c in enumerate(cs)}
         lower, upper = set(), {}
         for g in conj:
